@@ -789,7 +789,7 @@ class _GenerateRenderMethod:
                 if self.compiler.pagetag:
                     args = self.compiler.pagetag.filter_args.args + args
                 if self.compiler.default_filters and "n" not in args:
-                    args = self.compiler.default_filters + args
+                    args = list(self.compiler.default_filters) + args
         for e in args:
             # if filter given as a function, get just the identifier portion
             if e == "n":
